@@ -62,7 +62,9 @@ def scanOut (v : View) (pat : List Atom) (m0 : MSt) (nsave : Nat) : String :=
     decide (m0.start < 4294967296) && decide (m0.stop < 4294967296) &&
     (v.kind != .file || decide (SecWF (v.secs.mergeSort (fun a b => a.va ≤ b.va))))
   let sound := ans.2.all (fun c => m0.start ≤ c && c < m0.stop && execOK v pat c) && ascending ans.2
-  s!"{ans.1} ## spec=[{join ((spec.take specCap).map (fmtSpecHit v pat nsave)) ";"}] specn={spec.length} hyp={b01 hyp} hypu={b01 hypu} pos=[{join (ans.2.map toString)}] sound={b01 sound}"
+  -- lo0/hi0: the range the `Matches` object was created with (`scan`: the arguments; `scan_code`: `code_range()`),
+  -- for the oracle on `range=` / `hits=` (`C10_scan_hits`, `C10_scan_hits_no_overflow`)
+  s!"{ans.1} ## spec=[{join ((spec.take specCap).map (fmtSpecHit v pat nsave)) ";"}] specn={spec.length} hyp={b01 hyp} hypu={b01 hypu} pos=[{join (ans.2.map toString)}] sound={b01 sound} lo0={m0.start} hi0={m0.stop}"
 
 /-- the positions `next` can examine at all: inside the range and inside a raw-data slice -/
 def scanPositions (v : View) (lo hi : Nat) : List Nat :=
